@@ -7,6 +7,7 @@ import (
 	"go/token"
 	"go/types"
 	"reflect"
+	"sort"
 	"strings"
 
 	"golang.org/x/tools/go/ssa"
@@ -323,6 +324,108 @@ func runC03(w *World, r *Report, tier string) {
 
 	// ---- R3 reply classification
 	c03Replies(w, r, fErr)
+
+	// ---- R1 (restart after TLS): between the STARTTLS step and <auth/>, the stream is restarted unless the path has
+	// found that TLS was not started on this connection
+	{
+		ns := w.Func("xmpp.NewSession")
+		fTls := w.Field("xmpp.Session.TlsEnabled")
+		scs := w.callsInH(ns, "xmpp.Session.startTlsIfSupported")
+		acs := w.callsInH(ns, "xmpp.Session.auth")
+		if len(scs) == 1 && len(acs) == 1 {
+			sc, ac := scs[0].(ssa.Instruction), acs[0].(ssa.Instruction)
+			isAC := func(in ssa.Instruction) bool { return in == ac }
+			isReset := w.isCallTo("xmpp.Session.reset")
+			bad := ""
+			n := 0
+			err := walkPaths(after(sc), isAC, nil, 50000, func(path []ssa.Instruction, end pathEnd) {
+				if !isAC(path[len(path)-1]) {
+					return
+				}
+				n++
+				off := pathAsserts(path, func(c ssa.Value, truth bool) bool { f, _ := loadedField(c); return f == fTls && !truth })
+				if !off && countOn(path, isReset) == 0 {
+					bad = "after STARTTLS the client can go on to <auth/> without restarting the stream (no reset() on a path that has not found TlsEnabled false): RFC 6120 requires a new stream header and new features on the secured connection"
+				}
+			})
+			if err != nil {
+				r.Undecided("R1", "xmpp.NewSession#restart-after-tls", w.pos(ns.Pos()), err.Error())
+			} else {
+				r.Check(bad == "" && n > 0, "R1", "xmpp.NewSession#restart-after-tls", w.pos(ns.Pos()), bad, fmt.Sprintf("%d path(s) from the STARTTLS step to auth: restarted, or TLS found not started", n))
+			}
+		}
+	}
+
+	// ---- R3 (resume reply): a reply to <resume/> that is neither <resumed/> nor <failed/> is an error, not a refusal
+	{
+		rs := w.Func("xmpp.(*Session).resume")
+		fErr := w.Field("xmpp.Session.err")
+		nps := w.callsInH(rs, "stanza.NextPacket")
+		if len(nps) == 1 {
+			np := nps[0].(*ssa.Call)
+			var pkt ssa.Value
+			for _, rf := range *np.Referrers() {
+				if ex, ok := rf.(*ssa.Extract); ok && ex.Index == 0 {
+					pkt = ex
+				}
+			}
+			uni := map[string]types.Type{}
+			var unk []string
+			w.returnedDynTypes(w.Func("stanza.NextPacket"), 0, 0, uni, &unk)
+			isErrStore := func(in ssa.Instruction) bool {
+				st, ok := in.(*ssa.Store)
+				if !ok {
+					return false
+				}
+				fa, ok := st.Addr.(*ssa.FieldAddr)
+				if !ok || fieldOfAddr(fa) != fErr {
+					return false
+				}
+				v := rvCur(st.Val)
+				if isNilConst(v) {
+					return false
+				}
+				if ex, ok := v.(*ssa.Extract); ok && ex.Tuple == ssa.Value(np) {
+					return false // the read error itself (nil on the paths considered here)
+				}
+				return true
+			}
+			bad := ""
+			n := 0
+			var names []string
+			for k := range uni {
+				names = append(names, k)
+			}
+			sort.Strings(names)
+			for _, name := range names {
+				if name == "stanza.SMResumed" || name == "stanza.SMFailed" || pkt == nil {
+					continue
+				}
+				walkPaths(after(np), nil, typeEdgeFilter(pkt, uni[name]), 20000, func(path []ssa.Instruction, end pathEnd) {
+					if _, ok := path[len(path)-1].(*ssa.Return); !ok {
+						return
+					}
+					// only replies that were read without error
+					readFailed := pathAsserts(path, func(c ssa.Value, truth bool) bool {
+						x, eq, ok := nilCompare(c)
+						if !ok || eq == truth {
+							return false
+						}
+						f, _ := loadedField(x)
+						return f == fErr
+					})
+					if readFailed {
+						return
+					}
+					n++
+					if countOn(path, isErrStore) == 0 {
+						bad = "a " + name + " in reply to <resume/> is treated like a refusal: no error is recorded, the client goes on to bind as if the server had answered <failed/>"
+					}
+				})
+			}
+			r.Check(bad == "" && n > 0 && len(unk) == 0, "R3", "xmpp.(*Session).resume#unexpected-reply", w.ipos(np), bad, fmt.Sprintf("%d path(s) for replies other than <resumed/>/<failed/>: an error is recorded", n))
+		}
+	}
 
 	// ---- R3 (stream open): InitStream reports success only for <stream:stream> or the websocket <open/>
 	{
